@@ -520,11 +520,21 @@ func (e *escaper) escapeTree(c context, node parse.Node, name string, line int) 
 		dt := e.template(dname)
 		if dt == nil {
 			dt = template.New(dname)
-			dt.Tree = t.Tree.Copy()
+			src := t.Tree
+			if p := e.ns.pristine[name]; p != nil {
+				// t.Tree may already have been rewritten for the text context.
+				src = p
+			}
+			dt.Tree = src.Copy()
 			dt.Tree.Name = dname
 			e.derived[dname] = dt
 		}
 		t = dt
+	} else if e.ns.pristine[name] == nil {
+		if e.ns.pristine == nil {
+			e.ns.pristine = map[string]*parse.Tree{}
+		}
+		e.ns.pristine[name] = t.Tree.Copy()
 	}
 	return e.computeOutCtx(c, t), dname
 }
